@@ -27,7 +27,7 @@ UN = ["not", "neg", "uminus", "uplus"]
 ARITH = ["pow", "pow2", "mul", "div", "mod", "add", "sub"]
 F1 = ["acos", "asin", "atan", "ceil", "cos", "cosh", "exp", "abs", "fabs", "floor", "log", "log10", "round", "sin", "sinh", "sqrt", "tan", "tanh", "log1p", "acosh", "asinh", "atanh"]
 F2 = ["gt", "ge", "eq", "neq", "le", "lt", "min", "max", "pow", "atan2", "fmod"]
-LITS = ["2.000", "0.500", "3.000", "0.250", "1.000", "0.000", "4.000", "1.500"]
+LITS = ["2.000", "0.500", "3.000", "0.250", "1.000", "0.000", "4.000", "1.500", ".5", "3.", "1E0"]
 DISCONT = {"ceil", "floor", "round", "gt", "ge", "eq", "neq", "le", "lt", "fmod", "mod", "min", "max", "not", "and", "or"}
 
 
@@ -103,7 +103,8 @@ def check_tree(ctx, fl, e, c, where):
     ren = {"a": "Pi", "c": "Max"} if check_tree.n % 2 else {}
     AN, CN = ren.get("a", "a"), ren.get("c", "c")
     e.input_variables[0].name = AN
-    want_pf = " ".join(ren.get(t, t) for t in c["postfix"])
+    canon_lit = {".5": "0.500", "3.": "3.000", "1E0": "1.000"}       # Node.postfix() prints a literal as the number it denotes
+    want_pf = " ".join(canon_lit.get(t, ren.get(t, t)) for t in c["postfix"])
     vals = []
     for v in c["values"]:
         try:
@@ -115,7 +116,10 @@ def check_tree(ctx, fl, e, c, where):
            "min-max" if any(f in json.dumps(c["tree"]) for f in ('"min"', '"max"')) else "other")
     for st, toks in enumerate(c["shown"]):
         toks = [ren.get(t, t) for t in toks]
-        for text in {" ".join(toks), unspaced(toks)}:
+        # (written without blanks, a literal such as `3.` runs into the operator `.-`; a negative exponent (`25e-2`) is cut at its sign by the formatter even between blanks and is not used: those spellings are only
+        # well-formed when blanks separate them from their neighbours)
+        odd_literal = any(t in (".5", "3.", "1E0") for t in toks)
+        for text in ({" ".join(toks)} if odd_literal else {" ".join(toks), unspaced(toks)}):
             case = {"formula": text, "tree": c["tree"]}
             ctx.count()
             try:
